@@ -52,6 +52,8 @@ func program(c Case) (*gen.Program, string) {
 	case "dce":
 		p := gen.Replay(c.Choices, gen.Dce)
 		return p.Prog, p.Placement
+	case "limits":
+		return gen.Limits(c.Kind, c.K), fmt.Sprintf("limits:%s/size=%d", c.Kind, c.K)
 	}
 	return nil, ""
 }
@@ -256,6 +258,12 @@ func main() {
 			tails = append(tails, Case{Family: "tails", Kind: k, K: i})
 		}
 	}
+	// limits family: operands beyond one byte / code beyond 64 KiB pass through the optimiser's decode and re-encode
+	for _, k := range gen.LimitKinds {
+		for _, n := range gen.LimitSizes(k) {
+			tails = append(tails, Case{Family: "limits", Kind: k, K: n})
+		}
+	}
 	report.ParallelFor(len(tails), func(i int) {
 		c := tails[i]
 		fails, obs := runCase(c, &st)
@@ -265,10 +273,12 @@ func main() {
 		if strings.HasSuffix(obs, "/dce-removed") {
 			distinct.Add(text)
 		}
-		r.Outcome("tails/" + obs)
-		r.Count("programs/tails", 1)
+		r.Outcome(c.Family + "/" + obs)
+		r.Count("programs/"+c.Family, 1)
 		for _, fl := range fails {
-			c.Source = text
+			if c.Family != "limits" {
+				c.Source = text
+			}
 			r.Violation(fl.sig, fl.what, c)
 		}
 	})
